@@ -239,7 +239,7 @@ def _rounds(draw, spec, n_metrics, algo, max_rounds, max_count, allow_none,
 
 
 @st.composite
-def _session(draw, algos, entry):
+def _session(draw, algos, entry, seeding=False):
   algo = draw(st.sampled_from(list(algos)))
   fam = SERVICE_ALGOS.get(algo, algo)
   # random_sample.sample_parameters is a helper without a refusal contract:
@@ -266,8 +266,14 @@ def _session(draw, algos, entry):
   # GP cases are expensive: most of them start with a history (GP fitted)
   pre = draw(st.one_of(pre_list, pre_list, pre_list, st.just([]))
              if fam in GP else st.one_of(st.just([]), pre_list))
+  if seeding:  # empty study, one suggest call: centre + quasi-random seeds
+    pre, max_rounds, max_count = [], 1, 5
   rounds = draw(_rounds(spec, nm, fam, max_rounds, max_count, allow_none,
                         force_single, rare_inf))
+  if seeding:
+    return {'entry': entry, 'algo': algo, 'space': spec, 'metrics': metrics,
+            'opts': opts, 'seed': draw(st.integers(0, 2 ** 16)), 'pre': pre,
+            'rounds': rounds, 'seeding': True}
   return {'entry': entry, 'algo': algo, 'space': spec, 'metrics': metrics,
           'opts': opts, 'seed': draw(st.integers(0, 2 ** 16)), 'pre': pre,
           'rounds': rounds}
@@ -283,6 +289,10 @@ def slow_strategy():
 
 def service_strategy():
   return _session(SERVICE_CHEAP + ('NOT_REGISTERED',), 'service')
+
+
+def gp_seeding_strategy():
+  return _session(GP + ('gp_ucb_pe',), 'designer', seeding=True)
 
 
 def gp_strategy():
@@ -654,7 +664,8 @@ def check_designer_session(case):
   if answered_after_history:
     out.cls('answered_after_history')
   out.nontrivial = bool(answered and oi.interesting(spec) and
-                        (algo in STATELESS or answered_after_history))
+                        (algo in STATELESS or answered_after_history or
+                         case.get('seeding')))
   return out
 
 
@@ -927,24 +938,29 @@ def families(tier):
   req_gp = tuple('answered:' + a for a in GP) + ('phase:gp_fitted',)
   return [
       core.Family('designers', check_session, strategy=designers_strategy,
-                  budget={'quick': 2100, 'thorough': 60000},
+                  budget={'quick': 2100, 'thorough': 32000},
                   shards={'quick': 8, 'thorough': 16},
                   required_classes=req_cheap),
       core.Family('slow_designers', check_session, strategy=slow_strategy,
-                  budget={'quick': 150, 'thorough': 3000},
+                  budget={'quick': 150, 'thorough': 2000},
                   shards={'quick': 6, 'thorough': 16},
                   required_classes=req_slow),
       core.Family('service', check_session, strategy=service_strategy,
-                  budget={'quick': 450, 'thorough': 9000},
+                  budget={'quick': 450, 'thorough': 8000},
                   shards={'quick': 8, 'thorough': 16},
                   required_classes=req_service),
       core.Family('defaults', check_defaults, strategy=defaults_strategy,
-                  budget={'quick': 800, 'thorough': 20000},
+                  budget={'quick': 800, 'thorough': 16000},
                   shards={'quick': 4, 'thorough': 8},
                   required_classes=('conditional', 'flat', 'via_function',
                                     'via_decorator', 'via_policy',
                                     'has_default', 'seed_trial_judged',
                                     'scale_LOG', 'degenerate')),
+      core.Family('gp_seeding', check_session, strategy=gp_seeding_strategy,
+                  budget={'quick': 64, 'thorough': 1200},
+                  shards={'quick': 4, 'thorough': 16},
+                  required_classes=tuple('answered:' + a for a in GP) + (
+                      'mixed_kinds', 'scale_LOG', 'batch_gt1')),
       core.Family('gp', check_session, enumerate=gp_cases,
                   shards={'quick': 10, 'thorough': 16},
                   required_classes=req_gp),
